@@ -326,6 +326,11 @@ def scipy_cases(draw):
     aspect = draw(st.sampled_from([1.0, 1.0, 0.1, 50.0]))
     off = draw(st.sampled_from([0.0, 100.0, -1e4]))
     pts = [[off + scale * (a + gen.JITTER[(5 * a + b) % 12]), off + scale * aspect * (b + gen.JITTER[(a + 7 * b + 3) % 12])] for a, b in cells]
+    # SciPy accepts exactly repeated coordinates (with different values); so must verde, with the same result
+    ndup = draw(st.sampled_from([0, 0, 1, 2, 3]))
+    for _ in range(ndup):
+        pts.append(list(pts[draw(st.integers(0, n - 1))]))
+    n = len(pts)
     vals = draw(st.lists(gen.finite(-1e3, 1e3), min_size=n, max_size=n))
     m = draw(st.integers(1, 12))
     qs = [[off + scale * draw(gen.finite(-2, 12)), off + scale * aspect * draw(gen.finite(-2, 12))] for _ in range(m)]
@@ -351,7 +356,8 @@ def check_scipy(case, ctx):
     ctx.check(got.shape == tuple(qshape), "prediction shape %s for query shape %s", got.shape, tuple(qshape))
     if not np.array_equal(got, ref, equal_nan=True):
         raise Violation("%s(rescale=%r) differs from SciPy's interpolator on the same points: %r vs %r" % (cls.__name__, case["rescale"], got.ravel().tolist(), np.asarray(ref).ravel().tolist()))
-    ctx.label(case["kind"], "rescale" if case["rescale"] else "norescale", "has_outside" if np.isnan(ref).any() else "all_inside")
+    ctx.label(case["kind"], "rescale" if case["rescale"] else "norescale", "has_outside" if np.isnan(ref).any() else "all_inside",
+              "repeated_points" if len({tuple(p) for p in case["points"]}) < len(case["points"]) else "distinct_points")
     ctx.nt(True)
 
 
